@@ -69,7 +69,9 @@ func c13Exec(input string) string {
 	if f[0] != "x" {
 		panic("c13: bad input " + input)
 	}
-	return morassRunWork(parseMWork(f[1:]))
+	w := parseMWork(f[1:])
+	w.trace = true
+	return morassRunWork(w)
 }
 
 // c13Sched walks the protocol simulator with a fixed policy up to quiescence.
@@ -145,6 +147,7 @@ func c13Gen(g *hx.Gen) {
 		ops []string
 	}
 	var wls []wl
+	c13Fourth(g)
 	c13Recovery(g)
 	c13Abandon(g)
 	distinct := func(ty string, n, pulls int, clear bool, ops []string) []string {
@@ -223,7 +226,7 @@ func c13Gen(g *hx.Gen) {
 			ops = append(ops[:i:i], append([]string{"x"}, ops[i:]...)...)
 		}
 		// the fault may fall into any cycle of the history
-		fault := fmt.Sprintf("%s:%d", c13Points[g.Intn(len(c13Points))], g.Intn(total+1))
+		fault := fmt.Sprintf("%s:%d", c13Points[g.Intn(len(c13Points))], g.Intn(total+1)) + []string{"", "", ":g", ":u", ":w"}[g.Intn(5)]
 		g.Case(c13Line(true, c, ac, false, ty, ops, c13Sched(g, c, ac, ops, 2), fault))
 	}
 	// (3) residue of the temporary directory after fault-free histories, both modes
@@ -339,7 +342,8 @@ func c13Recovery(g *hx.Gen) {
 				}
 				for _, p2 := range c13Points {
 					for k2 := 0; k2 < n2[p2] && !g.Done(); k2++ {
-						fault := fmt.Sprintf("%s:%d+%s:%d", p1, k1, p2, k2)
+						// (fourth wave) the identity of the injected error values rotates
+						fault := fmt.Sprintf("%s:%d%s+%s:%d%s", p1, k1, []string{"", ":u", "", ":w"}[(k1+k2)%4], p2, k2, []string{"", "", ":u", ":w", ":g"}[(k1+2*k2)%5])
 						ac := (k1+k2)%3 == 2
 						g.Case(c13Line(false, w.c, ac, false, w.ty, ops, nil, fault))
 						// concurrent mode: one in three (every one in the thorough tier)
@@ -390,6 +394,224 @@ func c13Recovery(g *hx.Gen) {
 			fs = append(fs, fmt.Sprintf("%s:%d", c13Points[g.Intn(len(c13Points))], g.Intn(total/cycles+1)))
 		}
 		g.Case(c13Line(false, c, ac, false, ty, ops, nil, strings.Join(fs, "+")))
+	}
+}
+
+// c13Distinct appends one cycle of n values with distinct keys (which file is exhausted first, and
+// so the residue, is then determined): pushes, and when fin Finalise and pulls, and when clear Clear.
+func c13Distinct(g *hx.Gen, ops []string, ty string, n int, fin bool, pulls int, clear bool) []string {
+	base := g.Intn(50)
+	for _, i := range g.Perm(n) {
+		if ty == "s" {
+			ops = append(ops, fmt.Sprintf("p%d:%d", base+3*i, g.Intn(3)))
+		} else {
+			ops = append(ops, fmt.Sprintf("p%d", base+3*i))
+		}
+	}
+	if fin {
+		ops = append(ops, "f")
+		for i := 0; i < pulls; i++ {
+			ops = append(ops, "l")
+		}
+	}
+	if clear {
+		ops = append(ops, "c")
+	}
+	return ops
+}
+
+// c13ConcSched: a forced schedule for the whole program in concurrent mode under which no Clear
+// runs while a write() activation is alive (Clear does not wait for writers: notes/C13.md).
+// Policy 0 (a spawned writer runs to its end at once) always qualifies; one in three tries a
+// random walk first.
+func c13ConcSched(g *hx.Gen, c int, ac bool, ops []string, fault string, reuse bool) []int {
+	if g.Chance(0.33) {
+		sim := newSimF(true, c, ac, ops, fault, reuse)
+		if sched, ok := c13SchedF(g, sim, 2); ok && !sim.clearRacy {
+			return sched
+		}
+	}
+	sched, _ := c13SchedF(g, newSimF(true, c, ac, ops, fault, reuse), 0)
+	return sched
+}
+
+// c13Fourth: (6) fourth wave.
+// (6a) cycles ABANDONED with Clear before Finalise (seeded change C13-m7): after nothing / a cycle
+//      that stayed in memory / a cycle that spilled, a cycle of c-1 (no run file yet), c+1, 2c+1
+//      pushes is given up with Clear, and further cycles follow (in memory, spilling; drained, so
+//      that with AutoClear the listing at the drain is part of the statement); both modes (the
+//      concurrent one under schedules in which no writer is alive at a Clear), AutoClear on/off.
+// (6b) the same shape reached through a reported failure: memory-only cycle, Clear, a spilling
+//      cycle in which a writer fails, the caller recovers with Clear, a third cycle is drained.
+// (6c) the identity of the injected error (seeded change C13-m8): every Decode of Finalise and of
+//      Pull of the two workloads of stage (1) fails with io.ErrUnexpectedEOF itself and with an
+//      *os.PathError wrapping it (stage (1) injects the generic value at the same places).
+// (6d) a completed run file is cut short on disk by 1..3 bytes before Finalise reads it
+//      (fault trunc:<n>:<bytes>: at the n-th Seek of Finalise the harness truncates the file that
+//      is about to be read), alone, in the second cycle, and after a recovery.
+func c13Fourth(g *hx.Gen) {
+	emit := func(conc bool, c int, ac bool, ty string, ops []string, fault string, reuse bool) {
+		if !conc {
+			g.Case(c13Line(false, c, ac, false, ty, ops, nil, fault))
+			return
+		}
+		sched := c13ConcSched(g, c, ac, ops, fault, reuse)
+		if reuse {
+			g.Case(c13LineR(true, c, ac, false, ty, ops, sched, fault))
+		} else {
+			g.Case(c13Line(true, c, ac, false, ty, ops, sched, fault))
+		}
+	}
+	// (6a)
+	for _, conc := range []bool{false, true} {
+		for _, ac := range []bool{true, false} {
+			for _, c := range []int{2, 1, 3} {
+				for prev := 0; prev < 3; prev++ {
+					for _, nd := range []int{c + 1, 2*c + 1, c - 1} {
+						for follow := 0; follow < 3 && !g.Done(); follow++ {
+							ty := "i"
+							if (prev+follow+nd)%4 == 3 {
+								ty = "s"
+							}
+							var ops []string
+							switch prev {
+							case 1: // stayed in memory (Finalise sets fast)
+								ops = c13Distinct(g, ops, ty, c-1, true, c, true)
+							case 2: // spilled
+								ops = c13Distinct(g, ops, ty, 2*c, true, g.Pick(2*c+1, c), true)
+							}
+							ops = c13Distinct(g, ops, ty, nd, false, 0, true) // abandoned
+							switch follow {
+							case 0: // in memory, drained
+								ops = c13Distinct(g, ops, ty, c-1, true, c, false)
+							case 1: // spilling, drained
+								ops = c13Distinct(g, ops, ty, 2*c+1, true, 2*c+2, g.Chance(0.5))
+							case 2: // a second abandoned cycle, a partial drain, then a drained cycle
+								ops = c13Distinct(g, ops, ty, c, false, 0, true)
+								ops = c13Distinct(g, ops, ty, 2*c, true, c, true)
+								ops = c13Distinct(g, ops, ty, c+1, true, c+2, false)
+							}
+							emit(conc, c, ac, ty, ops, "-", false)
+						}
+					}
+				}
+			}
+		}
+	}
+	// random histories with abandoned cycles, both modes, sometimes a rejected Push
+	n := g.Scale(120, 8000)
+	for k := 0; k < n && !g.Done(); k++ {
+		c := g.Pick(1, 2, 2, 3, 4, g.Pick(5, 6, 7, 10))
+		ty := []string{"i", "i", "s"}[g.Intn(3)]
+		ac := g.Chance(0.6)
+		var ops []string
+		closed := true
+		for cy, cycles := 0, g.Range(2, 5); cy < cycles; cy++ {
+			cnt := c11Count(g, c)
+			if closed && g.Chance(0.45) {
+				ops = c13Distinct(g, ops, ty, cnt, false, 0, true)
+				continue
+			}
+			if !closed {
+				break
+			}
+			pulls := cnt + 1
+			if g.Chance(0.25) {
+				pulls = g.Intn(cnt + 1)
+			}
+			clear := g.Chance(0.6)
+			ops = c13Distinct(g, ops, ty, cnt, true, pulls, clear)
+			closed = clear || (ac && pulls > cnt)
+		}
+		if g.Chance(0.15) {
+			i := g.Intn(len(ops) + 1)
+			ops = append(ops[:i:i], append([]string{"x"}, ops[i:]...)...)
+		}
+		emit(g.Chance(0.5), c, ac, ty, ops, "-", false)
+	}
+	// (6b)
+	for _, c := range []int{2, 3} {
+		for _, ac := range []bool{true, false} {
+			for _, fault := range []string{"tempfile:0", "tempfile:1", "encode:0", "encode:" + fmt.Sprint(c), "sync:0", "sync:1:u", "tempfile:0+pdecode:1", "encode:1:w+tempfile:0"} {
+				if g.Done() {
+					break
+				}
+				ops := c13Distinct(g, nil, "i", c-1, true, c, true)
+				ops = c13Distinct(g, ops, "i", 2*c+1, true, 2*c+2, true)
+				ops = c13Distinct(g, ops, "i", 2*c+1, true, 2*c+2, false)
+				emit(false, c, ac, "i", ops, fault, false)
+				emit(true, c, ac, "i", ops, fault, true)
+			}
+		}
+	}
+	// (6c)
+	type wl struct {
+		c   int
+		ty  string
+		ops []string
+	}
+	wls := []wl{
+		{2, "i", c13Distinct(g, nil, "i", 5, true, 6, true)},
+		{2, "s", c13Distinct(g, c13Distinct(g, nil, "s", 5, true, 2, true), "s", 3, true, 4, true)},
+		{3, "i", c13Distinct(g, nil, "i", 8, true, 9, false)},
+	}
+	for wi, w := range wls {
+		cnt := c13Counts(w.c, w.ops)
+		for _, pt := range []string{"fdecode", "pdecode", "seek"} {
+			for k := 0; k < cnt[pt] && !g.Done(); k++ {
+				for ki, kind := range []string{"u", "w"} {
+					if pt == "seek" && (k+ki)%2 == 1 {
+						continue
+					}
+					fault := fmt.Sprintf("%s:%d:%s", pt, k, kind)
+					ac := (k+ki+wi)%2 == 1
+					emit(false, w.c, ac, w.ty, w.ops, fault, false)
+					if (k+ki)%2 == 0 || g.Thorough() {
+						g.Case(c13Line(true, w.c, ac, false, w.ty, w.ops, c13Sched(g, w.c, ac, w.ops, g.Intn(2)), fault))
+					}
+				}
+			}
+		}
+	}
+	// (6d)
+	for wi, w := range wls {
+		cnt := c13Counts(w.c, w.ops)
+		for k := 0; k < cnt["seek"] && !g.Done(); k++ {
+			for b := 1; b <= 3; b++ {
+				fault := fmt.Sprintf("trunc:%d:%d", k, b)
+				ac := (k+b+wi)%2 == 0
+				emit(false, w.c, ac, w.ty, w.ops, fault, false)
+				if b == 1+k%3 || g.Thorough() {
+					sched, _ := c13SchedF(g, newSimF(true, w.c, ac, w.ops, "-", false), 0)
+					g.Case(c13Line(true, w.c, ac, false, w.ty, w.ops, sched, fault))
+				}
+			}
+		}
+	}
+	// … after a recovery, and with partial drains (the cut value may never be read)
+	n = g.Scale(60, 3000)
+	for k := 0; k < n && !g.Done(); k++ {
+		c := g.Pick(1, 2, 2, 3, 4)
+		ty := []string{"i", "s"}[g.Intn(2)]
+		ac := g.Chance(0.4)
+		n1, n2 := g.Range(1, 3)*c+g.Pick(0, 1, c-1), g.Range(1, 3)*c+g.Pick(0, 1, c-1)
+		p2 := n2 + 1
+		if g.Chance(0.3) {
+			p2 = g.Intn(n2 + 1)
+		}
+		ops := c13Distinct(g, nil, ty, n1, true, n1+1, true)
+		ops = c13Distinct(g, ops, ty, n2, true, p2, g.Chance(0.5))
+		runs2 := (n2 + c - 1) / c
+		fault := fmt.Sprintf("trunc:%d:%d", g.Intn(runs2), g.Range(1, 3))
+		if g.Chance(0.6) {
+			// first a reported failure in cycle 1 (the seeks of cycle 1 are then never executed
+			// or precede the arming), then the cut in cycle 2
+			fault = fmt.Sprintf("%s:%d+%s", []string{"tempfile", "encode", "sync"}[g.Intn(3)], g.Intn(2), fault)
+		} else {
+			runs1 := (n1 + c - 1) / c
+			fault = fmt.Sprintf("trunc:%d:%d", runs1+g.Intn(runs2), g.Range(1, 3))
+		}
+		g.Case(c13Line(false, c, ac, false, ty, ops, nil, fault))
 	}
 }
 
